@@ -382,6 +382,33 @@ THEOREM = {"C13": "GcArena.C13.table_ok / cells_static", "C16": "GcArena.C16.tab
            "C20": "GcArena.C20s.statics / expanded_statics_are_tracing_callsites / fresh_state"}
 
 
+def _theorem_for(prop, v):
+    if prop == "C13":
+        return "GcArena.C13.cells_static" if v.startswith("cell:") else "GcArena.C13.table_ok"
+    if prop == "C16":
+        return "GcArena.C16.table_complete"
+    if prop == "C19":
+        return "GcArena.C19s.no_conjure"
+    if prop == "C03":
+        if v.startswith("reaches-do-collection"):
+            return "GcArena.C03s.collection_needs_exclusive_arena"
+        if v.startswith(("marked-arena", "constructs-marked-arena")):
+            return "GcArena.C03s.marked_arena_exclusive"
+        if v.startswith(("names:", "unclassified:", "graph:")):
+            return "GcArena.C03s.names_present"
+        return "GcArena.C03s.callgraph"
+    if v.startswith("static:"):
+        return "GcArena.C20s.statics"
+    if v.startswith("expanded-static:"):
+        return "GcArena.C20s.expanded_statics_are_tracing_callsites"
+    return "GcArena.C20s.fresh_state"
+
+
+def _is_tie_only(v):
+    """The extraction / certificate broke, no concrete offending entry is exhibited."""
+    return v.startswith(("unclassified:", "names:", "certificate:", "graph:", "fresh-roots:", "marked-arena:"))
+
+
 def _explain_collect(entry):
     """A concrete failing instantiation for an incomplete Collect entry (from the JSON facts)."""
     if not entry:
@@ -569,7 +596,8 @@ def run(prop, tier, seed):
     for v in violating:
         d = demos.get(v, [])
         key = _key_for(prop, v, d)
-        header = [f"property {prop}: table theorem {THEOREM[prop]} does not hold of the table extracted from {cfg['repo']}",
+        thm = _theorem_for(prop, v)
+        header = [f"property {prop}: table theorem {thm} does not hold of the table extracted from {cfg['repo']}",
                   f"violating entry: {v}"]
         lines = []
         if d:
@@ -578,9 +606,11 @@ def run(prop, tier, seed):
                           + (f"; running it prints: {r['run_out'][:200]}" if r["ran"] else ""))
             header.append("replay: rustc --edition 2024 --extern gc_arena=<…/libgc_arena.rlib> -L dependency=<…/deps> <this file> && ./<binary>")
             lines = p["src"].splitlines()
-            text = f"{THEOREM[prop].split(' /')[0]} fails for `{v}`; safe program `{p['name']}` is accepted" + (f" and unsafe when run ({r['run_out'][:100]})" if r["ran"] else "")
+            text = f"{thm} fails for `{v}`; safe program `{p['name']}` is accepted" + (f" and unsafe when run ({r['run_out'][:100]})" if r["ran"] else "")
         else:
-            text = f"{THEOREM[prop].split(' /')[0]} fails for `{v}`"
+            text = f"{thm} fails for `{v}`"
+            if _is_tie_only(v):
+                text = f"{thm} cannot be established: {v} (the translator fails closed; no failing input is exhibited)"
             if prop == "C16":
                 ent = next((e for e in tables["collect"]["entries"] if ("impl: " + e["text"]) == v), None)
                 lines = [f"table entry: {json.dumps(ent)}"] + _explain_collect(ent)
@@ -603,7 +633,7 @@ def run(prop, tier, seed):
             elif prop == "C19":
                 ent = next((s for s in tables["sig"]["sigs"] if ("sig: " + s["name"]) == v), None)
                 lines = [f"signature: {ent['decl'] if ent else v}", f"entry: {json.dumps(ent)}"]
-        problem(f"{prop}-{key}", text, True, header, lines, key=key)
+        problem(f"{prop}-{key}", text, bool(d) or not _is_tie_only(v), header, lines, key=key)
 
     # thorough: per-feature tables for C16 ------------------------------------------------------
     if prop == "C16" and tier == "thorough":
